@@ -236,6 +236,11 @@ int World::names_owned(int client) {
 }
 
 int World::n_active() { return bus_connections_get_n_active(bus_context_get_connections(ctx)); }
+bool World::bus_side_connected(int ci) const {
+  for (DBusConnection *conn : live_conns) { auto it = conn_to_client.find(conn); if (it != conn_to_client.end() && it->second == ci) return true; }
+  return false;
+}
+
 int World::n_incomplete() { return bus_connections_get_n_incomplete(bus_context_get_connections(ctx)); }
 
 int World::add_client(const simk::Creds &creds) {
